@@ -75,10 +75,10 @@ func c07EndToEnd(t *testing.T, tier string) (map[string]int, []report.Viol) {
 				t.Fatal(err)
 			}
 			stats["publishes"] += len(maps)
-			// two rounds: (0) filters as created; (1) every subscription's filter replaced
+			// three rounds: (0) filters as created; (1) every subscription's filter replaced
 			// by its neighbour's through UpdateSubscription - routing must follow the
 			// CURRENT filter of the subscription, whatever it was before
-			for round := 0; round < 2; round++ {
+			for round := 0; round < 3; round++ {
 				shift := 0
 				if round == 1 {
 					shift = len(fs)/2 + 1
@@ -94,6 +94,56 @@ func c07EndToEnd(t *testing.T, tier string) (map[string]int, []report.Viol) {
 						t.Fatal(err)
 					}
 					stats["publishes"] += len(maps)
+				}
+				if round == 2 {
+					// (2) the same messages arrive by dead-letter forwarding: a source
+					// subscription on another topic retires them after one attempt into
+					// this topic; its subscribers' CURRENT filters decide exactly as for
+					// a direct publish
+					shift = len(fs)/2 + 1
+					srcTopic := fmt.Sprintf("projects/p/topics/g%dsrc", gi)
+					srcSub := fmt.Sprintf("projects/p/subscriptions/g%dsrc", gi)
+					if _, err := w.Pub.CreateTopic(ctx, &pubsubpb.Topic{Name: srcTopic}); err != nil {
+						t.Fatal(err)
+					}
+					if _, err := w.Sub.CreateSubscription(ctx, &pubsubpb.Subscription{Name: srcSub, Topic: srcTopic, DeadLetterPolicy: &pubsubpb.DeadLetterPolicy{DeadLetterTopic: topic, MaxDeliveryAttempts: 1}}); err != nil {
+						t.Fatal(err)
+					}
+					sreq := &pubsubpb.PublishRequest{Topic: srcTopic, Messages: req.Messages}
+					if _, err := w.Pub.Publish(ctx, sreq); err != nil {
+						t.Fatal(err)
+					}
+					stats["publishes"] += len(maps)
+					var ids []string
+					for {
+						resp, err := w.Sub.Pull(ctx, &pubsubpb.PullRequest{Subscription: srcSub, MaxMessages: 1000, ReturnImmediately: true})
+						if err != nil {
+							t.Fatal(err)
+						}
+						if len(resp.ReceivedMessages) == 0 {
+							break
+						}
+						for _, rm := range resp.ReceivedMessages {
+							ids = append(ids, rm.AckId)
+						}
+					}
+					if len(ids) != len(maps) {
+						t.Fatalf("source subscription delivered %d of %d", len(ids), len(maps))
+					}
+					if _, err := w.Sub.ModifyAckDeadline(ctx, &pubsubpb.ModifyAckDeadlineRequest{Subscription: srcSub, AckIds: ids, AckDeadlineSeconds: 0}); err != nil {
+						t.Fatal(err)
+					}
+					// the next pulls retire (and forward) instead of delivering
+					for i := 0; i < len(maps)+2; i++ {
+						resp, err := w.Sub.Pull(ctx, &pubsubpb.PullRequest{Subscription: srcSub, MaxMessages: 1000, ReturnImmediately: true})
+						if err != nil {
+							t.Fatal(err)
+						}
+						if len(resp.ReceivedMessages) != 0 {
+							t.Fatalf("source subscription delivered a second attempt although max_delivery_attempts is 1")
+						}
+					}
+					stats["forwarded"] += len(maps)
 				}
 				for fi, f0 := range fs {
 					f := fs[(fi+shift)%len(fs)]
